@@ -182,22 +182,11 @@ def _tokens(t: Term) -> "list[tuple[str, Term]] | None":
         a, b = _tokens(t[2]), _tokens(t[3])
         return None if a is None or b is None else a + b
     if tag == "mcall" and t[2] == "join" and is_const(t[1], ".") and len(t[3]) == 1:
-        out = []
-        for i, (kind, x) in enumerate(seq(t[3][0])):
-            if i:
-                out.append(("sep", t))
-            if kind == "one":
-                sub = _tokens(x)
-                if sub is None:
-                    return None
-                out += sub
-            else:
-                l = loc(x)
-                if l[0] == "attr" and l[2] == "parts":
-                    out.append(("parts", l[1]))
-                else:
-                    out.append(("items", x))
-        return out
+        return _joined(t[3][0], t)
+    if tag == "idx" and is_const(t[2], 0) and t[1][0] == "mcall" and (t[1][2] == "rsplit" and len(t[1][3]) == 2 and is_const(t[1][3][0], ".") and is_const(t[1][3][1], 1) or t[1][2] == "rpartition" and len(t[1][3]) == 1 and is_const(t[1][3][0], ".")):
+        # everything before the last '.': the name without its last component (for names with at least two components)
+        inner = _tokens(t[1][1])
+        return None if inner is None else _drop_last(inner)
     if tag == "mcall" and t[2] == "replace" and len(t[3]) == 2 and is_const(t[3][1], ".") and (t[3][0] in (("lib", "os.sep"), ("lib", "os.path.sep")) or is_const(t[3][0], "/")):
         inner = t[1]
         if inner[0] == "call" and inner[1] == ("builtin", "str") and len(inner[2]) == 1 or inner[0] == "mcall" and inner[2] == "as_posix" or inner[0] == "call" and inner[1][0] == "lib" and inner[1][1] in ("os.fspath", "os.path.relpath", "os.path.dirname", "os.path.splitext"):
@@ -216,7 +205,59 @@ def _tokens(t: Term) -> "list[tuple[str, Term]] | None":
     return None
 
 
-def _canon(segs: list[tuple[str, Term]]) -> list[tuple[str, Term]]:
+def _joined(arg: Term, sep_owner: Term) -> "list[tuple[str, Term]] | None":
+    """Tokens of `".".join(arg)`."""
+    a = unbox(arg)
+    if a[0] == "slice" and is_const(a[4], None) and is_const(a[2], None) and is_const(a[3], -1):
+        inner = _joined(a[1], sep_owner)
+        return None if inner is None else _drop_last(inner)
+    out: list[tuple[str, Term]] = []
+    for i, (kind, x) in enumerate(seq(arg)):
+        if i:
+            out.append(("sep", sep_owner))
+        if kind == "one":
+            sub = _tokens(x)
+            if sub is None:
+                return None
+            out += sub
+            continue
+        l = loc(x)
+        if l[0] == "attr" and l[2] == "parts":
+            out.append(("parts", l[1]))
+        elif x[0] == "mcall" and x[2] == "split" and len(x[3]) == 1 and is_const(x[3][0], "."):
+            sub = _tokens(x[1])  # the components of a dotted name
+            if sub is None:
+                return None
+            out += sub
+        elif x[0] == "slice":
+            sub = _joined(x, sep_owner)
+            if sub is None:
+                return None
+            out += sub
+        else:
+            out.append(("items", x))
+    return out
+
+
+def _drop_last(toks: list[tuple[str, Term]]) -> "list[tuple[str, Term]] | None":
+    """Tokens of a dotted name without its last component."""
+    if not toks:
+        return None
+    kind, v = toks[-1]
+    if kind == "item":
+        rest = toks[:-1]
+        if rest and rest[-1][0] == "sep":
+            rest = rest[:-1]
+        return rest
+    if kind == "parts":
+        return toks[:-1] + [("parts", ("PARENT", v))]
+    return None
+
+
+def canon(segs: list[tuple[str, Term]]) -> list[tuple[str, Term]]:
+    """Canonical dotted name: `[*p.parent.parts, p.stem]` is `p.with_suffix("").parts`; parents and suffix removal act on the
+    first argument of a relative location; `root.name` followed by a location relative to `root` is that location relative to
+    `root.parent` (all for paths strictly below the root)."""
     out: list[tuple[str, Term]] = []
     for kind, v in segs:
         if kind == "item" and out and out[-1][0] == "parts" and v[0] == "attr" and v[2] in ("stem", "name"):
@@ -225,7 +266,29 @@ def _canon(segs: list[tuple[str, Term]]) -> list[tuple[str, Term]]:
                 out[-1] = ("parts", ("NOSUF", v[1]) if v[2] == "stem" else v[1])
                 continue
         out.append((kind, v))
-    return out
+    out = [(k, _push_in(v) if k == "parts" else v) for k, v in out]
+    merged: list[tuple[str, Term]] = []
+    for kind, v in out:
+        if kind == "parts" and v[0] == "REL" and merged and merged[-1] == ("item", ("attr", v[2], "name")):
+            merged[-1] = ("parts", ("REL", v[1], ("PARENT", v[2])))
+            continue
+        merged.append((kind, v))
+    return merged
+
+
+_canon = canon
+
+
+def _push_in(l: Term) -> Term:
+    """PARENT(REL(a, b)) -> REL(PARENT(a), b); NOSUF(REL(a, b)) -> REL(NOSUF(a), b)."""
+    if l[0] in ("PARENT", "NOSUF"):
+        inner = _push_in(l[1])
+        if inner[0] == "REL":
+            return ("REL", _push_in((l[0], inner[1])), inner[2])
+        return (l[0], inner)
+    if l[0] == "REL":
+        return ("REL", _push_in(l[1]), l[2])
+    return l
 
 
 def show_dotted(segs: "list[tuple[str, Term]] | None") -> str:
